@@ -1561,6 +1561,13 @@ func (l *lexer) linebreak() bool {
 				l.unread()
 				return true
 			}
+			if r == '`' && l.cmdSubst == '`' {
+				// a comment inside a back-quoted command substitution
+				// ends at the closing back-quote
+				l.unread()
+				l.comment()
+				return true
+			}
 			l.b.WriteRune(r)
 		}
 	}
